@@ -2,7 +2,7 @@
    newStream / newMetadataStream (pkg/p2p/libp2p/stream.go) over a chunking fake network stream,
    and of the handler epilogue of two real libp2p services.  Definitions only. *)
 From Coq Require Import String List NArith ZArith Bool.
-From MevVerif Require Import lib.Bytes lib.Varint model.Framing.
+From MevVerif Require Import lib.Bytes lib.Varint model.Framing model.ProtoWire.
 Import ListNotations.
 Open Scope N_scope.
 
@@ -53,10 +53,16 @@ Inductive cbody :=
       (* one ReadMsg call per entry of reqs (0 = runs to completion, 1 = given up through its
          context while nothing had arrived; at most one given-up call pending at a time); one
          message per call is written, in order; got = what the completed calls returned *)
-  | StalledWrites (inners : list bytes) (calls : list N) (wire : list bytes).
+  | StalledWrites (inners : list bytes) (calls : list N) (wire : list bytes)
       (* WriteMsg calls on a stream whose peer does not take bytes (0 = completed after the peer
          resumed, 1 = given up through its context while stuck or queued); wire = the Write calls
          that reached the network stream, in order *)
+  | WireEnc (m : wmsg) (got : option bytes) (back : option wmsg)
+      (* a generated protocol message: got = proto.Marshal (Deterministic) of it, None = Marshal
+         refused; back = the fields after the real Unmarshal of those bytes into a fresh message *)
+  | WireDec (k : N) (input : bytes) (got : option wmsg).
+      (* arbitrary bytes handed to the real proto.Unmarshal into a fresh message of kind k:
+         None = refused, Some = the fields of the message afterwards *)
 
 Record case := { id : N; cb : cbody }.
 
@@ -246,8 +252,50 @@ Fixpoint count_b (b : bytes) (l : list bytes) : nat :=
 Definition payloads_of (rs : list rres) : list bytes :=
   flat_map (fun r => match r with RData p => [p] | _ => [] end) rs.
 
+(* protocol messages (model/ProtoWire.v) *)
+Definition fval_eqb (a b : fval) : bool :=
+  match a, b with
+  | VB p, VB q => bytes_eqb p q
+  | VI p, VI q => (p =? q)%Z
+  | _, _ => false
+  end.
+Definition vals_eqb : list fval -> list fval -> bool := list_eqb fval_eqb.
+Definition wmsg_eqb (a b : wmsg) : bool :=
+  match a, b with
+  | MFlat k p, MFlat k' q => (k =? k') && vals_eqb p q
+  | MPeers p, MPeers q => list_eqb vals_eqb p q
+  | MPreconf p, MPreconf q =>
+      match pc_bid p, pc_bid q with
+      | Some u, Some v => vals_eqb u v
+      | None, None => true
+      | _, _ => false
+      end && vals_eqb (pc_rest p) (pc_rest q)
+  | _, _ => false
+  end.
+Definition wire_back_ok (m : wmsg) (back : option wmsg) : bool :=
+  match back with Some m' => wmsg_eqb m m' | None => false end.
+(* the bytes a node put on the wire, read by the wire format as specified (the decoder of
+   model/ProtoWire.v, i.e. what an unmodified peer does), give the message that was written *)
+Definition wire_kind_of (m : wmsg) : N :=
+  match m with MFlat k _ => k | MPeers _ => 4 | MPreconf _ => 5 end.
+Definition spec_reads (m : wmsg) (b : bytes) : bool :=
+  match wire_unmarshal (wire_kind_of m) b with TOk m' => wmsg_eqb m m' | _ => false end.
+
 Definition agrees (c : cbody) : bool :=
   match c with
+  | WireEnc m got _ =>
+      match wire_marshal m, got with
+      | Some a, Some b => bytes_eqb a b
+      | None, None => true
+      | _, _ => false
+      end
+  | WireDec k input got =>
+      match wire_unmarshal k input, got with
+      | TOk m, Some m' => wmsg_eqb m m'
+      | TBad, None => true
+      | TUnspec, _ => true                      (* a start-group tag: outside the model *)
+      | _, _ => false
+      end
   | Abandon inners reqs got =>
       Nat.eqb (length inners) (length reqs) &&
       all2 readmsg_agrees (fst (serve (map req_of reqs) (map data_body inners))) got
@@ -374,6 +422,14 @@ Definition violation (c : cbody) : list string :=
       if forallb (fun f => Nat.leb 1 (count_b f bodies) && Nat.leb (count_b f frs) (count_b f bodies)) frs &&
          forallb (fun b => Nat.leb 1 (count_b b frs)) completed
       then [] else ["roundtrip"%string]
+  | WireEnc m got back =>
+      (* what Marshal accepted must read back as the same message, through the real Unmarshal
+         and through the wire format as specified *)
+      match got with
+      | Some b => if wire_back_ok m back && spec_reads m b then [] else ["roundtrip"%string]
+      | None => []
+      end
+  | WireDec _ _ _ => []
   end.
 
 Definition violations (cs : list case) : list (N * string) :=
@@ -389,4 +445,6 @@ Definition nontrivial (cs : list case) : list N :=
     | E2E None _ => false
     | Abandon _ _ _ => true
     | StalledWrites _ _ _ => true
+    | WireEnc _ got _ => match got with Some _ => true | None => false end
+    | WireDec _ input _ => negb (is_nil input)
     end) cs).
